@@ -164,7 +164,7 @@ func checkC23(r *Run) {
 		}
 		if m.elemSize != "" {
 			item := m.elemSize + "($0." + m.field + "[i])"
-			size := "fold[acc=" + enc + "(local:" + strings.TrimSuffix(enc, ".EncodeSize") + "); (acc + " + item + ")]"
+			size := "fold[acc=" + enc + "(local:*); (acc + " + item + ")]"
 			r.RequireStore("C23-R4", m.trunc, "items cut to [:index+1] where index advances in every continuing iteration", "$0."+m.field+" := $0."+m.field+"[:(fold[acc=-1; i] + 1)]")
 			nl := 0
 			for _, lp := range tff.loops {
@@ -185,8 +185,8 @@ func checkC23(r *Run) {
 			// hash-list truncators
 			r.ReturnShape("C23-R4", m.trunc, 0,
 				ShapeCase{enc + "($0) <= ($1 - 4)", "$0.Transactions"},
-				ShapeCase{"($1 - 4) < " + enc + "($0)", "daemon.truncateSHA256Slice($0.Transactions, (($1 - 4) - " + enc + "(local:" + strings.TrimSuffix(enc, ".EncodeSize") + ")))"})
-			r.RequireAtCall("C23-R4", m.trunc, "daemon.truncateSHA256Slice", 1, req("max-4 >= size of the empty message", enc+"(local:"+strings.TrimSuffix(enc, ".EncodeSize")+") <= ($1 - 4)"), req("max >= 4", "4 <= $1"))
+				ShapeCase{"($1 - 4) < " + enc + "($0)", "daemon.truncateSHA256Slice($0.Transactions, (($1 - 4) - " + enc + "(local:*)))"})
+			r.RequireAtCall("C23-R4", m.trunc, "daemon.truncateSHA256Slice", 1, req("max-4 >= size of the empty message", enc+"(local:*) <= ($1 - 4)"), req("max >= 4", "4 <= $1"))
 			// the constructor stores the truncated hashes
 			r.RequireStore("C23-R4", m.ctor, "the message carries the truncated hash list", "*.Transactions := "+m.trunc+"(*, $1)")
 		}
